@@ -129,7 +129,11 @@ void floyd_warshall(
     for(unsigned i=0;i<es.size();i++) {
         unsigned u=es[i].first, v=es[i].second;
         COLA_ASSERT(u<n&&v<n);
-        D[u][v] = D[v][u] = (eweights.size() > 0) ? eweights[i] : 1;
+        // A self-loop never shortens a path, and of several parallel edges
+        // only the cheapest matters.
+        if (u == v) continue;
+        T w = (eweights.size() > 0) ? eweights[i] : 1;
+        if (w < D[u][v]) D[u][v] = D[v][u] = w;
     }
     for(unsigned k=0; k<n; k++) {
         for(unsigned i=0; i<n; i++) {
